@@ -110,13 +110,14 @@ def build(ctx):
     def constant1():
         A = resv.Step(ctx, "SinglePhaseReservoir", "array")
         B = resv.Step(ctx, "SinglePhaseReservoir", "none")
+        (As, Ab), (Bs, Bb) = A.single(), B.single()   # OutOfSubset unless one solve and one matrix assembly per step
         sub = {}
-        for t in (A.pre((tm.const(0), j)), A.solves[0]["b"]((j,)), A.bm[0]["arg_fn"]((j,))):
+        for t in (A.pre((tm.const(0), j)), As["b"]((j,)), Ab["arg_fn"]((j,))):
             for nd in tm.postorder(t):
                 if nd.op == "app" and nd.args[0] == "pf_sched":
                     sub[nd] = resv.pf
         ren = {}
-        pairs = [(A.pre((tm.const(0), j)), B.pre((tm.const(0), j)), "row 0"), (A.bm[0]["arg_fn"]((j,)), B.bm[0]["arg_fn"]((j,)), "kt_h2"), (A.solves[0]["b"]((j,)), B.solves[0]["b"]((j,)), "right-hand side")]
+        pairs = [(A.pre((tm.const(0), j)), B.pre((tm.const(0), j)), "row 0"), (Ab["arg_fn"]((j,)), Bb["arg_fn"]((j,)), "kt_h2"), (As["b"]((j,)), Bs["b"]((j,)), "right-hand side")]
         # the two runs build two fluid objects with independently numbered interpolants: identify them by role
         ren = {A.A.name: B.A.name, A.M.name: B.M.name, A.PPname: B.PPname}
         extra = {}
